@@ -18,6 +18,7 @@ package main
 
 import (
 	"fmt"
+	"sort"
 	"strconv"
 	"strings"
 
@@ -933,6 +934,25 @@ func oracleC13(r *rng, n int, st *oracleStats) []oracleFailure {
 				if got := idsOf(res.Matched); !intsEq(got, first) || !intsEq(marked(c2), first) {
 					fail("C13:one-doc-write", fmt.Sprintf("sorted Update(limit 1) matched %v and changed %v; the first of the full ordering %v is %v", got, marked(c2), full, first),
 						docs, q, spec, "update")
+					return
+				}
+			}
+			{
+				// Update with a window changes exactly that window
+				skip, limit := pick(r, ws), pick(r, ws)
+				c3, _, _, _ := sdCollection(docs)
+				upd := bson.D{{Key: "$set", Value: bson.D{{Key: "zz", Value: int32(1)}}}}
+				res, err := c3.Update(&q, &upd, &spec, skip, limit, nil)
+				if err != nil {
+					fail("C13:write-error", "Update fails: "+err.Error(), docs, q, spec, "")
+					return
+				}
+				exp := windowOf(full, skip, limit)
+				sortedExp := append([]int{}, exp...)
+				sort.Ints(sortedExp)
+				if got := idsOf(res.Matched); !intsEq(got, exp) || !intsEq(marked(c3), sortedExp) {
+					fail("C13:window", fmt.Sprintf("sorted Update skip=%d limit=%d matched %v and changed %v; the window of the full ordering %v is %v", skip, limit, got, marked(c3), full, exp),
+						docs, q, spec, fmt.Sprintf("update skip=%d limit=%d", skip, limit))
 					return
 				}
 			}
